@@ -222,3 +222,213 @@ pub fn der<const B: usize, const L: usize, const NO: usize>(nd: &mut Nd) {
         }
     }
 }
+
+/// primitive-types: U128/U256/U512 and H128/H160/H256 conversions are exact and round-trip
+pub fn primitive_types(nd: &mut Nd) {
+    use primitive_types as pt;
+    use ruint::aliases as ours;
+    let a: ours::U128 = nd.uint();
+    let b: ours::U256 = nd.uint();
+    let k = nd.upto(31);
+    let pa = pt::U128::from(a);
+    chk!(nd, "C16.primitive_types.u128", pa.0 == *a.as_limbs() && <ours::U128 as From<pt::U128>>::from(pa) == a);
+    let pb = pt::U256::from(b);
+    chk!(nd, "C16.primitive_types.u256", pb.0 == *b.as_limbs() && <ours::U256 as From<pt::U256>>::from(pb) == b);
+    // Bits <-> H256: big-endian bytes
+    let bits = ours::B256::from(b);
+    let h = pt::H256::from(bits);
+    chk!(nd, "C16.primitive_types.h256.byte", h.0[k] == crate::refm::byte(b.as_limbs(), 31 - k));
+    chk!(nd, "C16.primitive_types.h256.roundtrip", ours::B256::from(h) == bits);
+    let bits = ours::B128::from(a);
+    let h = pt::H128::from(bits);
+    chk!(nd, "C16.primitive_types.h128", k >= 16 || h.0[k] == crate::refm::byte(a.as_limbs(), 15 - k));
+    chk!(nd, "C16.primitive_types.h128.roundtrip", ours::B128::from(h) == bits);
+}
+
+/// bytemuck: the Pod view of an aligned Uint is its little-endian byte string; zeroed() is ZERO
+pub fn bytemuck_pod(nd: &mut Nd) {
+    let a: Uint<128, 2> = nd.uint();
+    let k = nd.upto(15);
+    let bytes: &[u8] = bytemuck::bytes_of(&a);
+    chk!(nd, "C16.bytemuck.len", bytes.len() == 16);
+    chk!(nd, "C16.bytemuck.byte", bytes[k] == crate::refm::byte(a.as_limbs(), k));
+    let back: Uint<128, 2> = bytemuck::pod_read_unaligned(bytes);
+    chk!(nd, "C16.bytemuck.roundtrip", back == a);
+    let z: Uint<65, 2> = bytemuck::Zeroable::zeroed();
+    chk!(nd, "C16.bytemuck.zeroed", z == Uint::<65, 2>::ZERO);
+}
+
+pub mod mini_ser {
+    //! The smallest Serializer that can capture ruint's binary form.
+    use serde::ser::{Impossible, Serializer};
+
+    #[derive(Debug)]
+    pub struct Er;
+    impl core::fmt::Display for Er {
+        fn fmt(&self, _: &mut core::fmt::Formatter<'_>) -> core::fmt::Result {
+            Ok(())
+        }
+    }
+    impl std::error::Error for Er {}
+    impl serde::ser::Error for Er {
+        fn custom<T: core::fmt::Display>(_msg: T) -> Self {
+            Er
+        }
+    }
+
+    /// captures `serialize_bytes` into a fixed buffer
+    pub struct Cap<'a> {
+        pub buf: &'a mut [u8],
+        pub len: &'a mut usize,
+    }
+
+    macro_rules! nope {
+        ($($f:ident($t:ty)),*) => {$(
+            fn $f(self, _v: $t) -> Result<(), Er> { Err(Er) }
+        )*};
+    }
+
+    impl<'a> Serializer for Cap<'a> {
+        type Ok = ();
+        type Error = Er;
+        type SerializeSeq = Impossible<(), Er>;
+        type SerializeTuple = Impossible<(), Er>;
+        type SerializeTupleStruct = Impossible<(), Er>;
+        type SerializeTupleVariant = Impossible<(), Er>;
+        type SerializeMap = Impossible<(), Er>;
+        type SerializeStruct = Impossible<(), Er>;
+        type SerializeStructVariant = Impossible<(), Er>;
+        fn is_human_readable(&self) -> bool {
+            false
+        }
+        fn serialize_bytes(self, v: &[u8]) -> Result<(), Er> {
+            if v.len() > self.buf.len() {
+                return Err(Er);
+            }
+            let mut i = 0;
+            while i < v.len() {
+                self.buf[i] = v[i];
+                i += 1;
+            }
+            *self.len = v.len();
+            Ok(())
+        }
+        nope!(serialize_bool(bool), serialize_i8(i8), serialize_i16(i16), serialize_i32(i32), serialize_i64(i64),
+            serialize_u8(u8), serialize_u16(u16), serialize_u32(u32), serialize_u64(u64), serialize_f32(f32),
+            serialize_f64(f64), serialize_char(char), serialize_str(&str));
+        fn serialize_none(self) -> Result<(), Er> {
+            Err(Er)
+        }
+        fn serialize_some<T: ?Sized + serde::Serialize>(self, _: &T) -> Result<(), Er> {
+            Err(Er)
+        }
+        fn serialize_unit(self) -> Result<(), Er> {
+            Err(Er)
+        }
+        fn serialize_unit_struct(self, _: &'static str) -> Result<(), Er> {
+            Err(Er)
+        }
+        fn serialize_unit_variant(self, _: &'static str, _: u32, _: &'static str) -> Result<(), Er> {
+            Err(Er)
+        }
+        fn serialize_newtype_struct<T: ?Sized + serde::Serialize>(self, _: &'static str, _: &T) -> Result<(), Er> {
+            Err(Er)
+        }
+        fn serialize_newtype_variant<T: ?Sized + serde::Serialize>(
+            self,
+            _: &'static str,
+            _: u32,
+            _: &'static str,
+            _: &T,
+        ) -> Result<(), Er> {
+            Err(Er)
+        }
+        fn serialize_seq(self, _: Option<usize>) -> Result<Self::SerializeSeq, Er> {
+            Err(Er)
+        }
+        fn serialize_tuple(self, _: usize) -> Result<Self::SerializeTuple, Er> {
+            Err(Er)
+        }
+        fn serialize_tuple_struct(self, _: &'static str, _: usize) -> Result<Self::SerializeTupleStruct, Er> {
+            Err(Er)
+        }
+        fn serialize_tuple_variant(
+            self,
+            _: &'static str,
+            _: u32,
+            _: &'static str,
+            _: usize,
+        ) -> Result<Self::SerializeTupleVariant, Er> {
+            Err(Er)
+        }
+        fn serialize_map(self, _: Option<usize>) -> Result<Self::SerializeMap, Er> {
+            Err(Er)
+        }
+        fn serialize_struct(self, _: &'static str, _: usize) -> Result<Self::SerializeStruct, Er> {
+            Err(Er)
+        }
+        fn serialize_struct_variant(
+            self,
+            _: &'static str,
+            _: u32,
+            _: &'static str,
+            _: usize,
+        ) -> Result<Self::SerializeStructVariant, Er> {
+            Err(Er)
+        }
+    }
+}
+
+/// serde binary form: BYTES big-endian bytes; the binary visitor decodes them back
+pub fn serde_binary<const B: usize, const L: usize, const NB: usize, const NO: usize>(nd: &mut Nd) {
+    use serde::{Deserialize, Serialize};
+    let v: Uint<B, L> = nd.uint();
+    let k = nd.upto(NB);
+    let mut buf = [0u8; NO];
+    let mut len = usize::MAX;
+    let r = v.serialize(mini_ser::Cap { buf: &mut buf, len: &mut len });
+    chk!(nd, "C16.serde_binary.ok", r.is_ok());
+    chk!(nd, "C16.serde_binary.len", len == NB);
+    if k < NB {
+        chk!(nd, "C16.serde_binary.byte", buf[k] == refm::byte(v.as_limbs(), NB - 1 - k));
+    }
+    if len == NB {
+        let back = Uint::<B, L>::deserialize(crate::c17::mini_serde::De { tok: crate::c17::mini_serde::Tok::Bytes(&buf[..NB]) });
+        chk!(nd, "C16.serde_binary.roundtrip", matches!(back, Ok(x) if refm::eq(x.as_limbs(), v.as_limbs())));
+    }
+}
+
+/// postgres: to_sql then from_sql returns the value for every binary column type whose encoding succeeds
+pub fn pg_roundtrip<const B: usize, const L: usize, const T: usize>(nd: &mut Nd) {
+    use bytes::BytesMut;
+    use postgres_types::{FromSql, ToSql, Type};
+    let v: Uint<B, L> = nd.uint();
+    let t = match T {
+        0 => Type::BOOL,
+        1 => Type::INT2,
+        2 => Type::INT4,
+        3 => Type::INT8,
+        4 => Type::OID,
+        5 => Type::MONEY,
+        6 => Type::BYTEA,
+        7 => Type::BIT,
+        _ => Type::VARBIT,
+    };
+    let mut out = BytesMut::new();
+    match v.to_sql(&t, &mut out) {
+        Ok(_) => {
+            cov!(nd, "encodes", true);
+            let back = <Uint<B, L> as FromSql>::from_sql(&t, &out);
+            match back {
+                Ok(x) => chk!(nd, "C16.pg.roundtrip", refm::eq(x.as_limbs(), v.as_limbs())),
+                Err(e) => {
+                    chk!(nd, "C16.pg.decode_of_own_encoding_failed", false);
+                    core::mem::forget(e);
+                }
+            }
+        }
+        Err(e) => core::mem::forget(e),
+    }
+    core::mem::forget(out);
+    core::mem::forget(t);
+}
